@@ -144,9 +144,14 @@ pub fn insert_result(r: Result<usize, InsertError>) -> String {
                 BadSignature => "err:bad-signature",
                 TooFarInTheFuture => "err:future",
                 InvalidEmptyEntry => "err:invalid-empty",
+                // a refusal this harness does not know (the crate's enum grew): still a refusal, named as is
+                #[allow(unreachable_patterns)]
+                other => return format!("err:validation:{other:?}"),
             }
             .to_string()
         }
         Err(InsertError::Store(e)) => format!("err:store:{e}"),
+        #[allow(unreachable_patterns)]
+        Err(other) => format!("err:other:{other:?}"),
     }
 }
